@@ -15,9 +15,9 @@ from tools.vlib import Outcome, sx
 from tools.props import c02_gen as G
 
 MANIFEST = {
-    "level_text": "Coq theorems (Properties/C02.v, no axioms) about a set-level Gallina model of what types.ts, commands.ts, events.ts and index.ts export, import and mention in each mode (faithful to the code after the accepted repairs of batches 2 and 3, remaining defects included): the boolean closedness oracle is sound and complete for the Prop-level definition (reflection), duplicate-freedom of exports is decided exactly by dups = [], and for every well-formed project, outside the recorded defect classes and under the decidable side condition that every custom name mentioned is declared, the model's module graph is closed and declares nothing twice, in plain mode and in Zod mode; the witnesses of the repaired defects (Zod enum alias, one-argument Result, dependencies of event payload types, the same event emitted twice, ipc::Channel) are proved to satisfy the oracle outside every class. The model and the oracle are tied to /repo on every run: the real CLI is run on closed-world projects (custom types at every structural position of every site, enums, events, channels, type mappings, adversarial names) and the parsed files must have exactly the export/import/reference sets the model predicts.",
+    "level_text": "Coq theorems (Properties/C02.v, 13 obligations, no axioms) about a set-level Gallina model of what types.ts, commands.ts, events.ts and index.ts export, import and mention in each mode (faithful to the repaired code, remaining defects included). C02_closed (both modes; instances C02_closed_zod, C02_closed_plain): for every well-formed project whose types are of the documented type language (dom), in which every named type used is a serde struct/enum of the project or covered by a type mapping (closed_world, the premise of the property text), and which lies outside the four recorded defect classes, every reference of every generated module resolves (types.ts: declaration, import or built-in; commands.ts/events.ts: types.X exported by types.ts, Zod schemas and inferred aliases of enums and structs included), index.ts re-exports exactly the files written (C02_index_exact: unconditionally), and no module declares an exported name twice. The proof goes through C02_closed_world_declares (harvester, parser, resolve_types_lazily closure and collect_used_types closure agree: every mentioned custom name is declared), which uses the C07 worker's theorems parse_tts_faithful and harvest_names for the repaired splitter and a fixed-point argument for the bounded closure. The boolean oracle is proved equivalent to the Prop-level definitions (C02_oracle_closed_iff, C02_oracle_nodup_iff). The model and the oracle are tied to /repo on every run: the real CLI is run on closed-world projects (custom types at every structural position of every site, enums, events, channels, type mappings, adversarial names, multi-file projects in several fresh processes) and the parsed files must have exactly the export/import/reference sets the model predicts.",
     "design_ref": "DESIGN.md section 5 C02, section 12",
-    "level_note": "Partial: the step from the property's premise (closed_world) to the side condition refs_declared (every mentioned custom name is among the declared ones) is stated as C02_closed_world_full_statement and is not proved; it needs the harvest/parse agreement lemmas lifted to projects and a closure argument for resolve_types_lazily/collect_used_types. It is checked on every generated case at run time instead (closed_world and no class => the model predicts a closed graph). Reference sets are name sets: that a rendered type text lexes to exactly these names is C01/C05's business and is covered here only by the correspondence run. Function bodies are token sequences: only types.X members, call heads and instanceof operands are resolved there. Cross-module ambiguity through index.ts's two export * (command on_x beside listener onX) and import/declaration conflicts (struct named Channel) are observed and compared with the model but not judged: the property text speaks of names a module declares.",
+    "level_note": "Full at the level of name sets. Not covered by a theorem: that a rendered type text lexes to exactly the names the model lists (C01/C05's business; covered here by the correspondence run and the add_types_prefix small-scope stream); function bodies are token sequences in which only types.X members, call heads and instanceof operands are resolved; the type-language premise dom excludes qualified paths (std::collections::HashMap), unknown generic heads (DateTime<Utc>), lower-case type names and bare container names - outside dom only C02_closed_if_declared (decidable side condition refs_declared) applies. Model/C07TypeParse.v and Model/C07Harvest.v (parser and harvester) are the C07 worker's models, imported read-only together with their faithfulness theorems. Cross-module ambiguity through index.ts's two export * and import/declaration conflicts are observed and compared with the model but not judged: the property text speaks of names a module declares.",
     "technique": "Rocq/Coq proof over hand-written model + correspondence check (extracted OCaml oracle on the real CLI's output vs extracted model)"
 }
 
@@ -38,6 +38,7 @@ ASSUMPTIONS = ["the set of TypeScript built-in names is Spec/C02Closed.v builtin
 KF_ORDER = ["C02-2", "C02-6", "C02-7", "C02-8"]   # order of the kf flags in c02_model
 FILES = ("types.ts", "commands.ts", "events.ts", "index.ts")
 DEV = bool(os.environ.get("C02_SKIP_BUILD"))
+DOM_COUNT = {}
 
 
 def build():
@@ -102,6 +103,8 @@ def evaluate(jobs, reps=1):
         wf, cw, broken = (x == "true" for x in m[0:3])
         kfs = [x == "true" for x in m[3]]
         refs_declared = m[4] == "true"
+        in_dom = len(m) > 8 and m[8] == "true"
+        DOM_COUNT[in_dom] = DOM_COUNT.get(in_dom, 0) + 1
         mrep = canon_report(m[5])
         if not (wf and cw):
             raise AssertionError("generator produced a case outside the premise (wf=%s closed_world=%s): %s" % (wf, cw, label))
@@ -133,10 +136,12 @@ def evaluate(jobs, reps=1):
             detail["diff"] = [{"file": FILES[i], "impl": a, "model": b} for i, (a, b) in enumerate(zip(irep["files"], mrep["files"])) if a != b]
         if r["status"] != 0 or "types.ts" not in r["files"]:
             detail["log"] = r["log"][-600:]
-        # the unproved step, checked on the case: outside every class the model itself predicts a closed graph
+        # C02_closed, re-checked on the extracted code: in the documented type language and outside every class
+        # the model itself predicts a closed graph (a failure here would be an extraction / decoding fault)
         if kf is None and not broken and not (mrep["closed"] and mrep["nodup"]):
             corr = False
-            detail["why"] = "model predicts a violation outside every recorded class (counterexample to C02_closed_world_full_statement)"
+            detail["why"] = "model predicts a violation outside every recorded class (in_dom=%s; contradicts theorem C02_closed when in_dom)" % in_dom
+        detail["model"]["in_type_language"] = in_dom
         nontrivial = any(it["kind"] in ("struct", "enum") for its in case["files"].values() for it in its)
         outs.append(Outcome(c, corr, ok, kf=kf, detail=detail, nontrivial=nontrivial))
     return outs
@@ -231,6 +236,7 @@ def run(rep):
     tot = sum(v["cases"] for k, v in st.items() if k != "atp")
     inside = sum(v["in_known_class"] for k, v in st.items() if k != "atp")
     rep.extra["outside_every_class_fraction"] = round(1 - inside / max(1, tot), 3)
+    rep.extra["cases_in_documented_type_language(dom)"] = {str(k): v for k, v in DOM_COUNT.items()}
     rep.extra["not_judged_observations"] = "index_ambiguous and import_decl_conflicts are compared with the model (corr) but are not part of ok; see notes/C02.md"
 
 
